@@ -1058,6 +1058,197 @@ fn close_scenario_inner(net: &mut Net, rng: &mut Rng, sc: usize, thorough: bool,
 	Ok(out)
 }
 
+// =================================================================================================
+// c02multi — TWO inbound edges (A–B, E–B), ONE outbound edge (B–C), 2–3 forwarded HTLCs fulfilled while B persists asynchronously
+// =================================================================================================
+/// op lines (Lean driver `c02multi`, state = the GENERATED blocker map of Generated/RaaBlock.lean + number of parked updates):
+///   minit                      (directive) fresh map
+///   fulfil <blocker>           (directive) C's update_fulfill_htlc for the HTLC whose inbound edge/id is <blocker> was processed
+///   rel <blocker>              (directive) <blocker>'s PaymentPreimage update completed: the EARLIEST point its completion action can run
+///   raa <handed|parked>        C's revoke_and_ack processed and its monitor update was handed to chain::Watch / parked  → `ok` unless
+///                              the generated `held` says the map still holds a blocker and the update was handed
+///   flush <flies|stays>        a completion on an inbound edge while updates are parked  → `ok` unless held and they fly
+fn multi_scenario(rng: &mut Rng, sc: usize, thorough: bool) -> Result<FwdOut, String> {
+	let base = *rng.pick(&[0u32, 1000, 2500]);
+	let prop = *rng.pick(&[0u32, 100, 5000]);
+	let delta = *rng.pick(&[48u16, 72, 144]);
+	let mut net = Net::new(4, vec![None, Some(b_config(base, prop, delta)), None, None]);
+	let r = guarded(std::panic::AssertUnwindSafe(|| multi_scenario_inner(&mut net, rng, sc, thorough, base, prop, delta)));
+	std::mem::forget(net);
+	match r { Ok(x) => x, Err(p) => Err(format!("PANIC {}", p)) }
+}
+
+fn multi_scenario_inner(net: &mut Net, rng: &mut Rng, sc: usize, thorough: bool, base: u32, prop: u32, delta: u16) -> Result<FwdOut, String> {
+	let mut out = FwdOut { lines: vec![], oracle: vec![], classes: vec![] };
+	let c0 = net.open(A, B, 1_000_000, 400_000_000);
+	let c1 = net.open(B, C, 1_000_000, 400_000_000);
+	let c2 = net.open(E, B, 1_000_000, 400_000_000);
+	static COUNTER: std::sync::atomic::AtomicU64 = std::sync::atomic::AtomicU64::new(1 << 40);
+	let fee_of = |amt: u64| (amt as u128 * prop as u128 / 1_000_000 + base as u128) as u64;
+	let n_htlc = 2 + rng.below(2) as usize;
+	let first_a = rng.chance(1, 2);
+	let mut fwds: Vec<Fwd> = vec![];
+	let mut down_ids: Vec<u64> = vec![];
+	for k in 0..n_htlc {
+		let from_a = match k { 0 => first_a, 1 => !first_a, _ => rng.chance(1, 2) };
+		let (src, cin) = if from_a { (A, c0) } else { (E, c2) };
+		let amt = 10_000_000 + (k as u64 + 1) * 1_000_000 + rng.below(900) * 1000;
+		let pos = net.trace.len();
+		let f = send_from(net, src, cin, c1, amt, fee_of(amt), delta as u32, 60 + rng.below(30) as u32, COUNTER.fetch_add(1, std::sync::atomic::Ordering::Relaxed))?;
+		net.settle(14);
+		if !net.claimable[C].iter().any(|c| c.0 == f.hash) { return Err("forward did not reach C".into()); }
+		if f.up_id.is_none() { return Err("inbound htlc id not seen".into()); }
+		let did = net.trace[pos..].iter().find_map(|o| if let Obs::Msg { from: B, to: C, kind: "add", amt: a, htlc_id, .. } = o { if *a == amt { Some(*htlc_id) } else { None } } else { None });
+		match did { Some(d) => down_ids.push(d), None => return Err("downstream htlc id not seen".into()) }
+		fwds.push(f);
+	}
+	for c in [c0, c1, c2] { net.sample_balances(c); }
+	let bal_before: u64 = [c0, c1, c2].iter().map(|c| b_balance(net, *c)).sum();
+	let p0 = net.trace.len();
+	net.set_mode(B, true);
+	// C claims everything (in a random order; a later claim may land in C's holding cell and go out with a later commitment)
+	let mut order: Vec<usize> = (0..n_htlc).collect();
+	for i in (1..order.len()).rev() { let j = rng.below(i as u64 + 1) as usize; order.swap(i, j); }
+	let mut to_claim = order.clone();
+	let k0 = to_claim.remove(0);
+	net.claim(fwds[k0].pay); net.process_events(C);
+	// the inbound edge whose monitor updates complete readily; the other one stays in flight (1/12 per roll)
+	let fav = if rng.chance(1, 2) { c0 } else { c2 };
+	let steps = if thorough { 60 + rng.below(40) } else { 40 + rng.below(30) } as usize;
+	for _ in 0..steps {
+		match rng.below(20) {
+			0..=8 => {
+				let q: Vec<(usize, usize)> = [(B, C), (C, B)].iter().cloned().filter(|l| net.queued(l.0, l.1) > 0).collect();
+				if !q.is_empty() { let (i, j) = *rng.pick(&q); net.deliver(i, j); }
+			},
+			9 | 10 => { if !to_claim.is_empty() { let k = to_claim.remove(0); net.claim(fwds[k].pay); net.process_events(C); } },
+			11..=14 => {
+				let mut cands: Vec<(usize, u64)> = vec![];
+				for c in [c0, c1, c2] { for id in net.pending_updates(B, c) { if c != c1 && c != fav && !rng.chance(1, 12) { continue; } cands.push((c, id)); } }
+				if !cands.is_empty() { let (c, id) = *rng.pick(&cands); net.complete(B, c, id); }
+			},
+			15 => { mark(net, "TICK"); net.process_events(C); net.forward(C); },
+			16 => { mark(net, "TICK"); net.process_events(B); },
+			_ => {
+				let q: Vec<(usize, usize)> = [(A, B), (B, A), (E, B), (B, E)].iter().cloned().filter(|l| net.queued(l.0, l.1) > 0).collect();
+				if !q.is_empty() { let (i, j) = *rng.pick(&q); net.deliver(i, j); net.process_events(A); net.process_events(E); }
+			},
+		}
+	}
+	// ---- drain ------------------------------------------------------------------------------------
+	for k in to_claim.drain(..) { net.claim(fwds[k].pay); net.process_events(C); }
+	for _ in 0..80 {
+		let mut any = false;
+		for c in [c0, c1, c2] { for id in net.pending_updates(B, c) { net.complete(B, c, id); any = true; } }
+		if let Some((i, j)) = net.any_queued() { net.deliver(i, j); any = true; }
+		for i in 0..4 { if net.nodes[i].node.needs_pending_htlc_processing() { mark(net, "TICK"); net.forward(i); any = true; } let before = net.trace.len(); mark(net, "TICK"); net.process_events(i); if net.trace.len() > before + 1 { any = true; } }
+		if !any { break; }
+	}
+	for c in [c0, c1, c2] { net.sample_balances(c); }
+	let bal_after: u64 = [c0, c1, c2].iter().map(|c| b_balance(net, *c)).sum();
+	let busy = net.nodes[B].node.list_channels().iter().any(|c| !c.pending_inbound_htlcs.is_empty() || !c.pending_outbound_htlcs.is_empty());
+	let tracing = std::env::var("VERIF_TRACE").map(|v| v == "all" || v == sc.to_string()).unwrap_or(false);
+	if tracing { eprintln!("=== multi scenario {} n={} fav=c{}", sc, n_htlc, fav); for o in &net.trace[p0..] { if !matches!(o, Obs::Balance { .. }) { eprintln!("  {}", fmt_obs(o)); } } }
+
+	// ---- trace -> op lines + impl-side oracles -----------------------------------------------------------
+	let tr: Vec<Obs> = net.trace[p0..].to_vec();
+	for o in &tr { if let Obs::ProtoError { node, text } = o { out.oracle.push(format!("multi scenario {}: honest operation produced a protocol error at node {}: {}", sc, node, text)); } }
+	for (n, r) in &net.closed { out.oracle.push(format!("multi scenario {}: channel closed at node {} ({})", sc, n, r)); }
+	out.lines.push(("minit".into(), "-".into(), "minit".into(), false));
+	let blocker_of = |k: usize| -> u64 { fwds[k].up_chan as u64 * 1000 + fwds[k].up_id.unwrap() };
+	// C's fulfils in the order they were queued (FIFO link, no disconnects): the i-th delivery is the i-th queued
+	let fulfil_queue: Vec<u64> = tr.iter().filter_map(|o| if let Obs::Msg { from: C, to: B, kind: "fulfill", htlc_id, .. } = o { Some(*htlc_id) } else { None }).collect();
+	let mut n_fulfil_dlv = 0usize;
+	let mut seen_fulfil = vec![false; n_htlc];       // C's update_fulfill_htlc for k was processed by B
+	let mut u: Vec<Option<u64>> = vec![None; n_htlc]; // id of the inbound edge's update that carries k's preimage
+	let mut pre: Vec<char> = vec!['n'; n_htlc];       // n / h / d
+	let mut released = vec![false; n_htlc];
+	let mut inflight: BTreeMap<usize, std::collections::BTreeSet<u64>> = BTreeMap::new();
+	let mut parked = 0usize;
+	let mut sched: Vec<String> = vec![];
+	let is_start = |o: &Obs| match o { Obs::Delivered { .. } | Obs::Completed { .. } => true, Obs::Event { node: B, text } => text == "TICK", _ => false };
+	let mut i = 0;
+	while i < tr.len() && !is_start(&tr[i]) { i += 1; }
+	while i < tr.len() {
+		let start = tr[i].clone();
+		let mut j = i + 1;
+		while j < tr.len() && !is_start(&tr[j]) { j += 1; }
+		let effects = &tr[i + 1..j];
+		let mut this_fulfil: Option<usize> = None;
+		match &start {
+			Obs::Delivered { from: C, to: B, kind: "fulfill", errors: 0, .. } => {
+				let did = fulfil_queue.get(n_fulfil_dlv).cloned(); n_fulfil_dlv += 1;
+				if let Some(k) = did.and_then(|d| down_ids.iter().position(|x| *x == d)) {
+					this_fulfil = Some(k);
+					sched.push(format!("C>B fulfil(htlc{} from c{})", k, fwds[k].up_chan));
+					if !seen_fulfil[k] { seen_fulfil[k] = true; out.lines.push((format!("fulfil {}", blocker_of(k)), "-".into(), "fulfil".into(), false)); }
+				} else { return Err("fulfil for an unknown downstream htlc id".into()); }
+			},
+			Obs::Delivered { from, to, kind, .. } => sched.push(format!("{}>{} {}", ["A", "B", "C", "E"][*from], ["A", "B", "C", "E"][*to], kind)),
+			Obs::Completed { node: B, chan, id } => {
+				sched.push(format!("complete c{} id={}", chan, id));
+				if let Some(s) = inflight.get_mut(chan) { s.remove(id); }
+				// the completion action of k's preimage update (it removes k's blocker) cannot run before this point
+				for k in 0..n_htlc { if fwds[k].up_chan == *chan && u[k] == Some(*id) { pre[k] = 'd'; if seen_fulfil[k] && !released[k] { released[k] = true; out.lines.push((format!("rel {}", blocker_of(k)), "-".into(), "rel".into(), false)); } } }
+			},
+			_ => {},
+		}
+		let mut handed_raa = 0usize; let mut generated_down = 0usize;
+		for o in effects {
+			match o {
+				Obs::Update { node: B, chan, id, kinds, in_progress, .. } => {
+					if *in_progress { inflight.entry(*chan).or_default().insert(*id); }
+					if let Some(k) = this_fulfil { if *chan == fwds[k].up_chan && kinds.contains(&"PaymentPreimage") && u[k].is_none() { u[k] = Some(*id); pre[k] = if *in_progress { 'h' } else { 'd' }; } }
+					if *chan == c1 && kinds.contains(&"CommitmentSecret") {
+						handed_raa += 1;
+						// ---- oracle: the downstream revocation update reaches chain::Watch only when the preimage of EVERY HTLC the
+						// next hop has fulfilled on that channel is durable in ITS inbound edge's monitor
+						for k in 0..n_htlc { if seen_fulfil[k] && pre[k] != 'd' {
+							out.oracle.push(format!("multi scenario {}: B handed the downstream (c{}) CommitmentSecret update id {} to chain::Watch while the PaymentPreimage update of forwarded HTLC {} (inbound edge c{}, htlc id {}) was {}; HTLCs: {}; schedule since the first claim: {}", sc, c1, id, k, fwds[k].up_chan, fwds[k].up_id.unwrap(),
+								if pre[k] == 'n' { "not even generated" } else { "still in flight (InProgress)" },
+								(0..n_htlc).map(|x| format!("htlc{}=c{}/id{}/{}msat pre={}", x, fwds[x].up_chan, fwds[x].up_id.unwrap(), fwds[x].out_amt, pre[x])).collect::<Vec<_>>().join(" "),
+								sched.join("; ")));
+						} }
+					}
+				},
+				Obs::Generated { node: B, chan, .. } if *chan == c1 => generated_down += 1,
+				_ => {},
+			}
+		}
+		if let Some(k) = this_fulfil { if u[k].is_none() { return Err("preimage update of the inbound edge not seen in the fulfil's segment".into()); } }
+		match &start {
+			Obs::Delivered { from: C, to: B, kind: "raa", errors: 0, .. } => {
+				let ans = if handed_raa > 0 { "handed" } else if generated_down > 0 { parked += 1; "parked" } else { "nothing" };
+				let nb = (0..n_htlc).filter(|k| seen_fulfil[*k] && !released[*k]).count();
+				out.lines.push((format!("raa {}", ans), "ok".into(), format!("raa:{}:preimages-in-flight={}", ans, nb), nb > 0));
+				if handed_raa > 0 { parked = 0; }
+			},
+			Obs::Completed { node: B, chan, .. } => {
+				if *chan != c1 && parked > 0 {
+					let ans = if handed_raa > 0 { "flies" } else { "stays" };
+					let nb = (0..n_htlc).filter(|k| seen_fulfil[*k] && !released[*k]).count();
+					out.lines.push((format!("flush {}", ans), "ok".into(), format!("flush:{}:preimages-in-flight={}", ans, nb), true));
+					if handed_raa > 0 { parked = 0; }
+				}
+			},
+			_ => {},
+		}
+		i = j;
+	}
+	// ---- terminal ------------------------------------------------------------------------------------------
+	let delta_b: i128 = bal_after as i128 - bal_before as i128;
+	let fees: u64 = fwds.iter().map(|f| f.in_amt - f.out_amt).sum();
+	if busy { out.oracle.push(format!("multi scenario {}: HTLCs still pending at B after the drain", sc)); }
+	if delta_b < 0 { out.oracle.push(format!("multi scenario {}: B's total balance fell by {} msat", sc, -delta_b)); }
+	if !busy && delta_b != fees as i128 { out.oracle.push(format!("multi scenario {}: B's balance changed by {} msat, the fees of the {} forwards are {}", sc, delta_b, n_htlc, fees)); }
+	let n_fwd = net.events[B].iter().filter(|e| matches!(e, Event::PaymentForwarded { .. })).count();
+	if !busy && n_fwd < n_htlc { out.oracle.push(format!("multi scenario {}: {} forwards claimed, {} PaymentForwarded events", sc, n_htlc, n_fwd)); }
+	for e in &net.events[B] { if let Event::HTLCHandlingFailed { .. } = e { out.oracle.push(format!("multi scenario {}: B failed an HTLC backwards although the next hop claimed every forward", sc)); } }
+	let two_edges_overlap = (0..n_htlc).any(|k| (0..n_htlc).any(|l| fwds[k].up_chan != fwds[l].up_chan));
+	out.classes.push(format!("scenario:n={}:two-inbound-edges={}", n_htlc, two_edges_overlap as u8));
+	Ok(out)
+}
+
 fn b_balance(net: &Net, c: usize) -> u64 {
 	net.trace.iter().rev().find_map(|o| if let Obs::Balance { node: B, chan, value_to_self_msat } = o { if *chan == c { Some(*value_to_self_msat) } else { None } } else { None }).unwrap_or(0)
 }
@@ -1095,6 +1286,26 @@ fn main() {
 		}
 		for (k, v) in class_hist { *rec.classes.entry(k).or_insert(0) += v; }
 		rec.notes.insert("rule".into(), "4 real nodes A-B-C, E-B (legacy channels); 1-2 forwarded HTLCs committed on both links, then a random schedule (single message deliveries over all links, monitor-update completions with or without the inbound edge's preimage update held back as RAA blocker, C's claims, further forwards from E or A that land in the holding cell / a sent or a held commitment) cut at a random point by a force-close of B-C (API call, error message from C, invalid update_fulfill_htlc from C); per HTLC on B-C at that instant one case (distinct by scenario and HTLC); afterwards C's or B's commitment is mined, C claims on chain, 1/3 of the scenarios run until the timeouts; in 1/3 of the scenarios the base HTLCs are TWO forwards with the SAME payment hash (one MPP payment, both parts over A-B and B-C), so that both HTLC outputs are claimed with the same preimage in one block; one `onchain` case per scenario in which the next hop spent forwarded HTLC outputs with a preimage (sources told apart by commitment output)".into());
+	} else if args.model == "c02multi" {
+		let n_scen = if args.thorough { 2500 } else { 170 } * args.scale as usize;
+		let mut class_hist: BTreeMap<String, u64> = BTreeMap::new();
+		let only: Option<usize> = std::env::var("VERIF_ONLY").ok().and_then(|v| v.parse().ok());
+		for sc in 0..n_scen {
+			let mut sub = Rng::new(rng.next());
+			if only.map(|o| o != sc).unwrap_or(false) { continue; }
+			match guarded(std::panic::AssertUnwindSafe(|| multi_scenario(&mut sub, sc, args.thorough))) {
+				Ok(Ok(out)) => {
+					for (k, (op, res, class, nt)) in out.lines.into_iter().enumerate() { if res == "-" { rec.directive(&op); } else { rec.case(&format!("{} @s{}.{}", op, sc, k), &res, &class, nt); } }
+					for o in out.oracle { rec.oracle_fail(o); }
+					for c in out.classes { *class_hist.entry(c).or_insert(0) += 1; }
+				},
+				Ok(Err(e)) if e.starts_with("PANIC ") => rec.oracle_fail(format!("multi scenario {} (seed {}) panicked: {}", sc, args.seed, e.chars().take(300).collect::<String>())),
+				Ok(Err(e)) => { rec.discarded += 1; *class_hist.entry(format!("discard:{}", e.chars().take(60).collect::<String>())).or_insert(0) += 1; },
+				Err(p) => rec.oracle_fail(format!("multi scenario {} (seed {}) panicked: {}", sc, args.seed, p.chars().take(300).collect::<String>())),
+			}
+		}
+		for (k, v) in class_hist { *rec.classes.entry(k).or_insert(0) += v; }
+		rec.notes.insert("rule".into(), "4 real nodes A-B, E-B (two inbound edges) and B-C (one outbound edge); 2-3 forwarded HTLCs committed on all links, the first two over DIFFERENT inbound edges; B persists asynchronously (every update InProgress), C claims all of them at random points; every B-C message delivered separately, monitor-update completions at B in random order with one inbound edge completing readily and the other rarely, inbound-edge messages at random points; per revoke_and_ack of C one case (handed / parked), per inbound-edge completion that runs a completion action while updates are parked one case (flies / stays), compared with the GENERATED blocker-map functions; oracle: no downstream CommitmentSecret update at chain::Watch before the preimage of every fulfilled HTLC is durable in its own inbound edge's monitor".into());
 	} else if args.model == "c02hop" {
 		let (n_scen, n_cases) = if args.thorough { (60, 400) } else { (14, 150) };
 		for sc in 0..n_scen * args.scale as usize {
